@@ -1,4 +1,5 @@
 import PGT.Proofs.Echo
+import PGT.Proofs.EchoOneof
 import PGT.Proofs.ToFlat
 import PGT.Proofs.FromFlat
 import PGT.Proofs.ToInPlace
@@ -151,5 +152,37 @@ theorem C08_prim_echo (info : FieldInfo) (k : PrimK) (hir : ScalarIR info k) (ob
       (LeafOK info k u n p → u = false → n' = n ∧ p' = p) := by
   intros; apply PGT.primEcho <;> assumption
 
+
+-- the echo with oneof groups (proofs: `Proofs/EchoOneof.lean`): `PlanObj2` extends `PlanObj` by scalar and message branches – at the
+-- top level, inside known nested messages and inside message branches, recursively – under the quantifier of C08: of two branches of
+-- one group at most one is not null (an unknown value counts as not null). `EchoOneofWitness.witness_fails` shows the clause cannot be
+-- weakened to "at most one known and non-null": an unknown, non-null scalar branch declared after the known branch comes back known
+-- with the zero payload and takes the holder in the second decode.
+
+/-- **C08, apply echo, with oneof groups** (same conclusion as `C08_echo`): for a plan object satisfying `PlanObj2` – the
+plain tree plus scalar and message branches of oneof groups, of each group at most one branch attribute not null –
+* `CopyFrom(plan)` into a fresh struct succeeds without diagnostics (`s1`),
+* `CopyTo(s1)` into the plan object itself succeeds without diagnostics (`e`),
+* a second `CopyFrom(e)` into a fresh struct succeeds without diagnostics (`s2`),
+* nothing is unknown in `e` at any depth, every attribute that was known in the plan is unchanged in `e`, and `s2`
+  equals `s1` in normal form. -/
+theorem C08_echo_oneof (X : String → TfVal → Prop) (ov : List (String × String)) (m : Msg) (plan : TfVal) (skN skE : List String)
+    (hX : ExtraOK X skN skE) (hp : PlanObj2 X m plan) :
+    ∃ s1 e s2, copyFrom ov m plan (.struct []) = .ok s1 ∧ s1.diags = [] ∧
+      copyTo m s1.obj plan = .ok e ∧ e.diags = [] ∧
+      copyFrom ov m e.tf (.struct []) = .ok s2 ∧ s2.diags = [] ∧
+      noUnknownDeep skN e.tf = true ∧ echoKeeps skE plan e.tf = true ∧ nfEqFields m.fields s1.obj s2.obj = true := by
+  intros; apply PGT.C08_echo_oneof <;> assumption
+
+/-- **C08 with oneof groups in the shape of `PGT.Props.C08.C08_full`**: whatever the three calls return, they return no
+diagnostic and the executable statement `Spec.c08Check` holds. -/
+theorem C08_echo_oneof_check (X : String → TfVal → Prop) (ov : List (String × String)) (m : Msg) (plan : TfVal)
+    (s1 : FromResult) (e : ToResult) (s2 : FromResult)
+    (hX : ExtraOK X (injectedNames m.fields m.info.injected ++ customNames m.fields) (customNames m.fields))
+    (hp : PlanObj2 X m plan)
+    (h1 : copyFrom ov m plan (.struct []) = .ok s1) (h2 : copyTo m s1.obj plan = .ok e)
+    (h3 : copyFrom ov m e.tf (.struct []) = .ok s2) :
+    s1.diags = [] ∧ e.diags = [] ∧ s2.diags = [] ∧ c08Check m plan s1.obj e.tf s2.obj = true := by
+  intros; apply PGT.C08_echo_oneof_check <;> assumption
 
 end PGT.Props.C08
